@@ -45,7 +45,8 @@ T4(a) == <<a[1], a[2], a[3], a[4]>>
 S_height(st)  == st.height
 S_params(st)  == [maxTimeout |-> st.params.maxTimeout, multiple |-> st.params.multiple,
                   minDeposit |-> st.params.minDeposit, tax |-> st.params.tax,
-                  slash |-> st.params.slash, refundDelay |-> st.params.refundDelay]
+                  slash |-> st.params.slash, refundDelay |-> st.params.refundDelay,
+                  lax |-> st.params.lax]
 S_defs(st)    == FnOf(st.defs, LAMBDA d : d.name, LAMBDA d : [author |-> d.author, dg |-> d.dg])
 S_bind(st)    == FnOf(st.bind, LAMBDA b : <<b.svc, b.prov>>,
                       LAMBDA b : [owner |-> b.owner, dep |-> b.dep, pr |-> PrOf(b.pr), sp |-> PrOf(b.sp),
@@ -131,6 +132,7 @@ Conf ==
             IF e.ok THEN Withdraw(e.signer, e.prov) ELSE Rej(CanWithdraw(e.signer, e.prov))
       [] e.name = "BankSend" ->
             IF e.ok THEN BankSend(e.signer, e.to, e.amount) ELSE Rej(CanBankSend(e.signer, e.to, e.amount))
+      [] e.name = "SetParams" -> e.ok /\ SetParams(S_params([params |-> e.params]))
       [] e.name = "BeginEndBlock" -> BeginEndBlock
       [] e.name = "ExpireBatch" -> e.ok /\ ExpireBatch(e.id)
       [] e.name = "Mid" -> Mid
